@@ -115,7 +115,7 @@ class Run:
         env.update(
             VERIF_TIER=self.tier, VERIF_SEED=str(self.seed), VERIF_SHARD=str(i), VERIF_SHARDS=str(n),
             VERIF_STATS=stats, VERIF_SCRATCH=cwd, VERIF_REPLAY_OUT=os.path.join(cwd, "replay-out"),
-            VERIF_KNOWN=os.path.join(VERIF, "KNOWN_FINDINGS.json"), VERIF_DIR=VERIF, VERIF_REPO=self.repo,
+            VERIF_KNOWN=os.environ.get("VERIF_KNOWN_OVERRIDE") or os.path.join(VERIF, "KNOWN_FINDINGS.json"), VERIF_DIR=VERIF, VERIF_REPO=self.repo,
             VERIF_PROPERTY=self.pid,
         )
         os.makedirs(env["VERIF_REPLAY_OUT"], exist_ok=True)
